@@ -31,6 +31,17 @@ CLAIMED = {
             '§6 C16',
             'ASCII identifiers only (lexer guarantees); hand model of to_rust_* (char_indices/peek loop) tied by H7',
             'Coq proof (induction on strings) + translated keyword table + differential correspondence'),
+    'C04': ('proof',
+            'Theorems for integer element sets of any length and operator sequence (single values, ranges with MIN/MAX, '
+            'non-PER-visible elements), alone, inside SIZE(..) and as serial constraints: the folded bound never excludes a '
+            'permitted value, equals the X.691 10.3.21 effective constraint when intersections are non-empty, is extensible exactly '
+            'when marked, and size-many fuel suffices; the precedence defect is a machine-checked refutation (known finding). Hand '
+            'transcription of fold_constraint_set & co tied by correspondence (hooked fold on random mixed sets, public '
+            'per_visible_range_constraints on the 7-point alphabet) and end-to-end in 7 positions; Spec oracle in Coq',
+            '§6 C04',
+            'hand model of per_visible.rs (string/alphabet arms modelled and corresponded, not covered by theorems); X.680 precedence '
+            'oracle for <= 3 operands; value references in bounds are C09',
+            'Coq proof (induction over set operations) + differential correspondence'),
 }
 NOT_YET = 'check not built yet in this session (planned, see DESIGN.md §6); not claimed until its proof and correspondence run'
 
